@@ -18,7 +18,7 @@ Proof. intros H E. apply Qeq_bool_iff in E. congruence. Qed.
 
 Lemma wclip_range x kp len : 0 <= wclip x kp len /\ wclip x kp len <= 1.
 Proof. unfold wclip. destruct (Qeq_bool len 0).
-  - destruct (qle kp x); lra.
+  - destruct (qlt kp x); lra.
   - apply qclip_range; lra. Qed.
 
 Lemma div_le_0 a l : 0 < l -> a <= 0 -> a / l <= 0.
@@ -36,31 +36,31 @@ Proof. intros H. destruct (Qeq_bool len 0) eqn:E.
 
 Lemma wclip_mono x y kp len : 0 <= len -> x <= y -> wclip x kp len <= wclip y kp len.
 Proof. intros Hl Hxy. unfold wclip. destruct (len_cases len Hl) as [[-> E]|[-> E]].
-  - destruct (qle kp x) eqn:E1, (qle kp y) eqn:E2; try lra.
-    apply qle_true in E1. apply qle_false in E2. lra.
+  - destruct (qlt kp x) eqn:E1, (qlt kp y) eqn:E2; try lra.
+    apply qlt_true in E1. apply qlt_false in E2. lra.
   - apply qclip_mono. apply div_mono. exact E. lra. Qed.
 
-(* left of the piece: weight 0 *)
-Lemma wclip_left x kp len : 0 <= len -> x < kp -> wclip x kp len == 0.
+(* on or left of the left keypoint of the piece: weight 0 *)
+Lemma wclip_left x kp len : 0 <= len -> x <= kp -> wclip x kp len == 0.
 Proof. intros Hl H. unfold wclip. destruct (len_cases len Hl) as [[-> E]|[-> E]].
-  - destruct (qle kp x) eqn:E1; [apply qle_true in E1; lra|reflexivity].
+  - destruct (qlt kp x) eqn:E1; [apply qlt_true in E1; lra|reflexivity].
   - pose proof (div_le_0 (x - kp) len E ltac:(lra)). unfold qclip. qcases; lra. Qed.
-(* at the left keypoint of a piece of positive length: weight 0 *)
-Lemma wclip_at_left x kp len : 0 < len -> x <= kp -> wclip x kp len == 0.
-Proof. intros Hl H. unfold wclip. destruct (len_cases len ltac:(lra)) as [[-> E]|[-> E]]; [lra|].
-  pose proof (div_le_0 (x - kp) len E ltac:(lra)). unfold qclip. qcases; lra. Qed.
-(* right of the piece (or on its right keypoint): weight 1 *)
-Lemma wclip_right x kp len : 0 <= len -> kp + len <= x -> wclip x kp len == 1.
+(* right of the piece: weight 1 *)
+Lemma wclip_right x kp len : 0 <= len -> kp + len < x -> wclip x kp len == 1.
 Proof. intros Hl H. unfold wclip. destruct (len_cases len Hl) as [[-> E]|[-> E]].
-  - destruct (qle kp x) eqn:E1; [reflexivity|apply qle_false in E1; lra].
+  - destruct (qlt kp x) eqn:E1; [reflexivity|apply qlt_false in E1; lra].
   - pose proof (div_ge_1 (x - kp) len E ltac:(lra)). unfold qclip. qcases; lra. Qed.
+(* on the right keypoint of a piece of positive length: weight 1 *)
+Lemma wclip_right_pos x kp len : 0 < len -> kp + len <= x -> wclip x kp len == 1.
+Proof. intros Hl H. unfold wclip. destruct (len_cases len ltac:(lra)) as [[-> E]|[-> E]]; [lra|].
+  pose proof (div_ge_1 (x - kp) len E ltac:(lra)). unfold qclip. qcases; lra. Qed.
 
-Lemma qle_proper_l a b x : a == b -> qle a x = qle b x.
-Proof. intros H. destruct (qle a x) eqn:E1, (qle b x) eqn:E2; try reflexivity.
-  - apply qle_true in E1. apply qle_false in E2. lra.
-  - apply qle_false in E1. apply qle_true in E2. lra. Qed.
+Lemma qlt_proper_l a b x : a == b -> qlt a x = qlt b x.
+Proof. intros H. destruct (qlt a x) eqn:E1, (qlt b x) eqn:E2; try reflexivity.
+  - apply qlt_true in E1. apply qlt_false in E2. lra.
+  - apply qlt_false in E1. apply qlt_true in E2. lra. Qed.
 Lemma wclip_kp_eq x kp kp' len : kp == kp' -> wclip x kp len == wclip x kp' len.
-Proof. intros H. unfold wclip. rewrite (qle_proper_l kp kp' x H).
+Proof. intros H. unfold wclip. rewrite (qlt_proper_l kp kp' x H).
   destruct (Qeq_bool len 0); [reflexivity|]. rewrite H. reflexivity. Qed.
 
 (* ---- segment sums --------------------------------------------------------- *)
@@ -118,13 +118,13 @@ Proof. induction lens as [|len lens IH]; intros kp [|d ds] Hl Hd Hxy; cbn [seg_s
   { apply IH; try assumption; intros v Hv; [apply Hl|apply Hd]; right; exact Hv. }
   lra. Qed.
 
-(* left of every remaining piece: all weights 0 *)
-Lemma seg_sum_left x lens : forall kp ds, all_nonneg lens -> x < kp -> seg_sum x kp lens ds == 0.
+(* on or left of the first remaining keypoint: all weights 0 *)
+Lemma seg_sum_left x lens : forall kp ds, all_nonneg lens -> x <= kp -> seg_sum x kp lens ds == 0.
 Proof. induction lens as [|len lens IH]; intros kp [|d ds] Hl H; cbn [seg_sum]; try reflexivity.
   assert (0 <= len) by (apply Hl; left; reflexivity).
   rewrite (wclip_left x kp len H0 H). rewrite IH. lra. intros v Hv; apply Hl; right; exact Hv. lra. Qed.
 (* right of every piece: all weights 1 *)
-Lemma seg_sum_right x lens : forall kp ds, all_nonneg lens -> length lens = length ds -> kp + qsum lens <= x ->
+Lemma seg_sum_right x lens : forall kp ds, all_nonneg lens -> length lens = length ds -> kp + qsum lens < x ->
   seg_sum x kp lens ds == qsum ds.
 Proof. induction lens as [|len lens IH]; intros kp [|d ds] Hl Hlen H; cbn [seg_sum qsum] in *; try reflexivity; try discriminate.
   assert (0 <= len) by (apply Hl; left; reflexivity).
@@ -132,6 +132,15 @@ Proof. induction lens as [|len lens IH]; intros kp [|d ds] Hl Hlen H; cbn [seg_s
   pose proof (qsum_nonneg lens Hr).
   assert (Hlen' : length lens = length ds) by (cbn [length] in Hlen; lia).
   rewrite (wclip_right x kp len H0) by lra. rewrite (IH (kp + len) ds Hr Hlen') by lra. lra. Qed.
+(* strictly positive lengths: also ON the last keypoint *)
+Lemma seg_sum_right_pos x lens : forall kp ds, (forall v, In v lens -> 0 < v) -> length lens = length ds ->
+  kp + qsum lens <= x -> seg_sum x kp lens ds == qsum ds.
+Proof. induction lens as [|len lens IH]; intros kp [|d ds] Hl Hlen H; cbn [seg_sum qsum] in *; try reflexivity; try discriminate.
+  assert (0 < len) by (apply Hl; left; reflexivity).
+  assert (Hr : forall v, In v lens -> 0 < v) by (intros v Hv; apply Hl; right; exact Hv).
+  assert (0 <= qsum lens) by (apply qsum_nonneg; intros v Hv; apply Qlt_le_weak, Hr, Hv).
+  assert (Hlen' : length lens = length ds) by (cbn [length] in Hlen; lia).
+  rewrite (wclip_right_pos x kp len H0) by lra. rewrite (IH (kp + len) ds Hr Hlen') by lra. lra. Qed.
 
 (* successive differences, recursively *)
 Fixpoint diffs (y0 : Q) (rest : list Q) : list Q :=
@@ -149,20 +158,14 @@ Proof. induction lens as [|len lens IH]; intros kp y0 [|y1 r] Hl H0 Hr; cbn [seg
   assert (Hlen : 0 <= len) by (apply Hl; left; reflexivity).
   assert (Hl' : all_nonneg lens) by (intros v Hv; apply Hl; right; exact Hv).
   assert (H1 : lo <= y1 <= hi) by (apply Hr; left; reflexivity).
-  destruct (Qlt_le_dec x (kp + len)) as [Hx|Hx].
-  - rewrite (seg_sum_left x lens (kp + len) _ Hl' Hx).
+  destruct (Qlt_le_dec (kp + len) x) as [Hx|Hx].
+  2: { rewrite (seg_sum_left x lens (kp + len) _ Hl' Hx).
     destruct (wclip_range x kp len) as [W0 W1]. set (w := wclip x kp len) in *.
     destruct (Qlt_le_dec y1 y0).
     + pose proof (qmul_nonneg w (y0 - y1) W0 ltac:(lra)). pose proof (qmul_nonneg (1 - w) (y0 - y1) ltac:(lra) ltac:(lra)). lra.
-    + pose proof (qmul_nonneg w (y1 - y0) W0 ltac:(lra)). pose proof (qmul_nonneg (1 - w) (y1 - y0) ltac:(lra) ltac:(lra)). lra.
+    + pose proof (qmul_nonneg w (y1 - y0) W0 ltac:(lra)). pose proof (qmul_nonneg (1 - w) (y1 - y0) ltac:(lra) ltac:(lra)). lra. }
   - rewrite (wclip_right x kp len Hlen Hx).
     destruct (IH (kp + len) y1 r Hl' H1) as [A B]. intros y Hy; apply Hr; right; exact Hy. lra. Qed.
-
-(* strictly positive lengths: at the left end keypoint every weight is 0 *)
-Lemma seg_sum_at_left x lens : forall kp ds, (forall v, In v lens -> 0 < v) -> x <= kp -> seg_sum x kp lens ds == 0.
-Proof. induction lens as [|len lens IH]; intros kp [|d ds] Hl H; cbn [seg_sum]; try reflexivity.
-  assert (0 < len) by (apply Hl; left; reflexivity).
-  rewrite (wclip_at_left x kp len H0 H). rewrite IH. lra. intros v Hv; apply Hl; right; exact Hv. lra. Qed.
 
 (* ---- list helpers -------------------------------------------------------- *)
 Lemma qsum_map_mul_r (r : Q) l : qsum (map (fun v => v * r) l) == qsum l * r.
@@ -350,19 +353,20 @@ Lemma pwl_row_monotone kip kop x y : is_none c = false -> not_missing x -> not_m
 Proof. intros Hi Hx Hy Hxy. rewrite !pwl_row_not_missing by assumption. apply row_interp_monotone; assumption. Qed.
 
 (* values left of / right of all keypoints *)
-Lemma row_interp_right kip kop x : row_sized kip kop -> p_imax c <= x ->
+Definition right_of (x : Q) : Prop :=
+  p_imax c < x \/ (softmax_pos sm /\ p_imin c < p_imax c /\ p_imax c <= x).
+Lemma row_interp_right kip kop x : row_sized kip kop -> right_of x ->
   row_interp kip kop x == qsum (kos_of kop).
 Proof. intros Hs Hx. unfold row_interp. unfold row_sized in Hs.
   destruct (kos_of kop) as [|y0 ds]; [discriminate|]. rewrite interp_seg. cbn [qsum].
-  rewrite seg_sum_right. reflexivity. apply key_deltas_nonneg; assumption. cbn [length] in Hs; lia.
-  rewrite (key_deltas_sum sm Hsm c kip). unfold rng_in. lra. Qed.
-Lemma row_interp_left kip kop x : x < p_imin c -> row_interp kip kop x == hd 0 (kos_of kop).
+  assert (L : length (key_deltas sm c kip) = length ds) by (cbn [length] in Hs; lia).
+  pose proof (key_deltas_sum sm Hsm c kip) as S. unfold rng_in in S.
+  destruct Hx as [Hx|[Hp [Hlt Hx]]].
+  - rewrite seg_sum_right. reflexivity. apply key_deltas_nonneg; assumption. exact L. lra.
+  - rewrite seg_sum_right_pos. reflexivity. apply key_deltas_pos; assumption. exact L. lra. Qed.
+Lemma row_interp_left kip kop x : x <= p_imin c -> row_interp kip kop x == hd 0 (kos_of kop).
 Proof. intros Hx. unfold row_interp. destruct (kos_of kop) as [|y0 ds]. reflexivity.
   rewrite interp_seg. rewrite seg_sum_left. cbn; lra. apply key_deltas_nonneg; assumption. exact Hx. Qed.
-Lemma row_interp_at_left kip kop x : softmax_pos sm -> p_imin c < p_imax c -> x <= p_imin c ->
-  row_interp kip kop x == hd 0 (kos_of kop).
-Proof. intros Hp Hlt Hx. unfold row_interp. destruct (kos_of kop) as [|y0 ds]. reflexivity.
-  rewrite interp_seg. rewrite seg_sum_at_left. cbn; lra. apply key_deltas_pos; assumption. exact Hx. Qed.
 
 (* clamps, parameter level: cumulative sum of the derived outputs *)
 Lemma kos_clamp_max kop : is_none c = false -> p_cmax c = true -> kos_of kop <> [] -> qsum (kos_of kop) == p_omax c.
@@ -381,25 +385,19 @@ Proof. unfold row_sized. destruct (kos_of kop); [discriminate|discriminate]. Qed
 
 (* function level *)
 Lemma pwl_row_clamp_max kip kop x : is_none c = false -> p_cmax c = true -> row_sized kip kop ->
-  not_missing x -> p_imax c <= x -> pwl_row sm sg c kip kop x == p_omax c.
+  not_missing x -> right_of x -> pwl_row sm sg c kip kop x == p_omax c.
 Proof. intros Hi Hc Hs Hm Hx. rewrite pwl_row_not_missing by assumption. rewrite row_interp_right by assumption.
   apply kos_clamp_max; try assumption. apply (row_sized_ne kip); assumption. Qed.
 Lemma pwl_row_clamp_min kip kop x : is_none c = false -> p_cmin c = true -> row_sized kip kop ->
-  not_missing x -> x < p_imin c \/ (softmax_pos sm /\ p_imin c < p_imax c /\ x <= p_imin c) ->
-  pwl_row sm sg c kip kop x == p_omin c.
+  not_missing x -> x <= p_imin c -> pwl_row sm sg c kip kop x == p_omin c.
 Proof. intros Hi Hc Hs Hm Hx. rewrite pwl_row_not_missing by assumption.
-  assert (E : row_interp kip kop x == hd 0 (kos_of kop)).
-  { destruct Hx as [Hx|[Hp [Hlt Hx]]]; [apply row_interp_left|apply row_interp_at_left]; assumption. }
-  rewrite E. apply kos_clamp_min; try assumption. apply (row_sized_ne kip); assumption. Qed.
+  rewrite row_interp_left by assumption. apply kos_clamp_min; try assumption. apply (row_sized_ne kip); assumption. Qed.
 Lemma pwl_row_cyclic kip kop x y : is_none c = true -> p_cyc c = true -> row_sized kip kop ->
-  not_missing x -> not_missing y ->
-  x < p_imin c \/ (softmax_pos sm /\ p_imin c < p_imax c /\ x <= p_imin c) -> p_imax c <= y ->
+  not_missing x -> not_missing y -> x <= p_imin c -> right_of y ->
   pwl_row sm sg c kip kop x == pwl_row sm sg c kip kop y.
 Proof. intros Hi Hc Hs Hmx Hmy Hx Hy. rewrite !pwl_row_not_missing by assumption.
-  rewrite (row_interp_right kip kop y Hs Hy).
-  assert (E : row_interp kip kop x == hd 0 (kos_of kop)).
-  { destruct Hx as [Hx|[Hp [Hlt Hx]]]; [apply row_interp_left|apply row_interp_at_left]; assumption. }
-  rewrite E. symmetry. apply kos_cyclic; assumption. Qed.
+  rewrite (row_interp_right kip kop y Hs Hy). rewrite row_interp_left by assumption.
+  symmetry. apply kos_cyclic; assumption. Qed.
 
 (* the size check, per slice: lengths of the derived lists *)
 Lemma kos_length kop : snd (split_missing sg c kop) <> [] \/ is_none c = false ->
@@ -414,3 +412,303 @@ Lemma split_missing_length kop : length (snd (split_missing sg c kop)) =
 Proof. unfold split_missing. destruct (p_min c), (p_mout c); cbn [snd opt_some andb negb]; rewrite ?removelast_length; lia. Qed.
 
 End RowThm.
+
+(* ---- the size check ------------------------------------------------------- *)
+(* flag combinations that _verify_pwl_calibration lets through *)
+Definition cfg_valid (c : pcfg) : Prop :=
+  p_imin c <= p_imax c /\ p_omin c <= p_omax c
+  /\ (is_none c = true \/ is_inc c = true)
+  /\ (is_none c = true -> p_cmin c = false /\ p_cmax c = false)
+  /\ (is_inc c = true -> p_cyc c = false)
+  /\ (opt_some (p_mout c) = true -> opt_some (p_min c) = true).
+(* module docstring: # keypoints, -1 cyclic, -1 clamp_min, -1 clamp_max,
+   +1 "if need to learn how to impute missing" *)
+Definition doc_output_size (c : pcfg) (num_kp : Z) : Z :=
+  (num_kp - b2z (p_cyc c) - b2z (p_cmin c) - b2z (p_cmax c)
+   + b2z (opt_some (p_min c) && negb (opt_some (p_mout c))))%Z.
+(* shape forms of keypoint_output_parameters that the check lets through *)
+Definition kop_form_ok (c : pcfg) (kop : ptens) : Prop :=
+  match kop with
+  | P2 _ => (p_units c <= 1)%nat
+  | P3 t => length (hd [] t) = p_units c
+  end.
+Definition inputs_form_ok (c : pcfg) (inputs : list (list Q)) : Prop :=
+  (width inputs <= 1)%nat \/ width inputs = p_units c.
+
+Lemma qlt_false_of_le a b : a <= b -> qlt b a = false.
+Proof. intros H. apply qlt_false. exact H. Qed.
+
+Lemma verify_sizes c inputs kip kop :
+  cfg_valid c -> kop_form_ok c kop -> inputs_form_ok c inputs ->
+  (verify c inputs kip kop = true <->
+   (Z.of_nat (plast kop) = doc_output_size c (num_keypoints kip) /\ (0 < doc_output_size c (num_keypoints kip))%Z)).
+Proof. intros [Hi [Ho [Hm [Hn [Hc Hs]]]]] Hk Hx. unfold verify.
+  rewrite (qlt_false_of_le _ _ Hi), (qlt_false_of_le _ _ Ho).
+  assert (E : output_param_size c kip = doc_output_size c (num_keypoints kip)).
+  { unfold output_param_size, doc_output_size. destruct (p_min c), (p_mout c); cbn [opt_some andb negb b2z] in *; try lia.
+    all: try (specialize (Hs eq_refl); discriminate). }
+  rewrite E. set (D := doc_output_size c (num_keypoints kip)).
+  assert (F1 : (1 <? p_units c)%nat && negb (prank kop =? 3)%nat = false).
+  { destruct kop; cbn [prank kop_form_ok] in *. destruct (Nat.ltb_spec 1 (p_units c)); [lia|reflexivity].
+    rewrite Nat.eqb_refl. cbn. apply andb_false_r. }
+  assert (F2 : (prank kop =? 3)%nat && negb (pdim1 kop =? p_units c)%nat = false).
+  { destruct kop; cbn [prank pdim1 kop_form_ok] in *. reflexivity. rewrite Hk, !Nat.eqb_refl. reflexivity. }
+  assert (F3 : (1 <? width inputs)%nat && negb (width inputs =? p_units c)%nat = false).
+  { destruct Hx as [Hx|Hx]. destruct (Nat.ltb_spec 1 (width inputs)); [lia|reflexivity].
+    rewrite Hx, Nat.eqb_refl. apply andb_false_r. }
+  rewrite F1, F2, F3. cbn [negb].
+  assert (G1 : is_none c || is_inc c = true) by (destruct Hm as [-> | ->]; [reflexivity|apply orb_true_r]).
+  assert (G2 : is_none c && (p_cmin c || p_cmax c) = false).
+  { destruct (is_none c); [|reflexivity]. destruct (Hn eq_refl) as [-> ->]. reflexivity. }
+  assert (G3 : is_inc c && p_cyc c = false).
+  { destruct (is_inc c); [|reflexivity]. rewrite (Hc eq_refl). reflexivity. }
+  assert (G4 : opt_some (p_mout c) && negb (opt_some (p_min c)) = false).
+  { destruct (opt_some (p_mout c)); [|reflexivity]. rewrite (Hs eq_refl). reflexivity. }
+  rewrite G1, G2, G3, G4. cbn [negb andb].
+  rewrite !andb_true_r. rewrite andb_true_iff, Z.ltb_lt, Z.eqb_eq. tauto. Qed.
+
+(* the checks on the flags are necessary: an accepted call has a valid configuration *)
+Lemma verify_cfg_valid c inputs kip kop : verify c inputs kip kop = true -> cfg_valid c.
+Proof. unfold verify, cfg_valid. intros H.
+  destruct (qlt (p_imax c) (p_imin c)) eqn:E1; cbn [negb andb] in H; [discriminate|].
+  destruct (is_none c || is_inc c) eqn:E2; cbn [negb andb] in H; [|discriminate].
+  destruct (is_none c && (p_cmin c || p_cmax c)) eqn:E3; cbn [negb andb] in H; [discriminate|].
+  destruct (qlt (p_omax c) (p_omin c)) eqn:E4; cbn [negb andb] in H; [discriminate|].
+  destruct (is_inc c && p_cyc c) eqn:E5; cbn [negb andb] in H; [discriminate|].
+  destruct (opt_some (p_mout c) && negb (opt_some (p_min c))) eqn:E6; cbn [negb andb] in H; [discriminate|].
+  clear H. apply qlt_false in E1. apply qlt_false in E4.
+  split; [exact E1|]. split; [exact E4|].
+  split. { apply orb_true_iff in E2. exact E2. }
+  split. { intros E. rewrite E in E3. cbn in E3. apply orb_false_iff in E3. exact E3. }
+  split. { intros E. rewrite E in E5. exact E5. }
+  intros E. rewrite E in E6. cbn in E6. apply negb_false_iff in E6. exact E6. Qed.
+
+(* ---- the whole function: slices ---------------------------------------------- *)
+Definition slice_kip (c : pcfg) (kip : option ptens) (b u : nat) : option (list Q) :=
+  match kip with None => None | Some t => Some (bsel [] u (bsel [] b (tile1 (p_units c) (to3 t)))) end.
+Definition slice_kop (c : pcfg) (kop : ptens) (b u : nat) : list Q :=
+  bsel [] u (bsel [] b (tile1 (p_units c) (to3 kop))).
+Definition slice_x (c : pcfg) (inputs : list (list Q)) (b u : nat) : Q :=
+  bsel 0 u (bsel [] b (tile1 (p_units c) inputs)).
+
+(* batch size of the result *)
+Definition out_batch (c : pcfg) (inputs : list (list Q)) (kip : option ptens) (kop : ptens) : nat :=
+  Nat.max (length (tile1 (p_units c) inputs))
+    (Nat.max (match kip with None => 1%nat | Some t => length (tile1 (p_units c) (to3 t)) end)
+             (length (tile1 (p_units c) (to3 kop)))).
+
+Lemma pwl_fn_some sm sg c inputs kip kop out : pwl_fn sm sg c inputs kip kop = Some out ->
+  verify c inputs kip kop = true
+  /\ bcompat (out_batch c inputs kip kop) (length (tile1 (p_units c) (to3 kop))) = true
+  /\ out = map (fun b => map (fun u => pwl_row sm sg c (slice_kip c kip b u) (slice_kop c kop b u) (slice_x c inputs b u))
+                 (seq 0 (p_units c))) (seq 0 (out_batch c inputs kip kop)).
+Proof. unfold pwl_fn. destruct (verify c inputs kip kop); cbn [negb]; [|discriminate].
+  unfold out_batch, slice_kip, slice_kop, slice_x. destruct kip as [t|].
+  - match goal with |- (if ?cond then _ else _) = _ -> _ => destruct cond eqn:E end; [|discriminate].
+    intros H. injection H as <-. repeat (apply andb_true_iff in E; destruct E as [E ?]).
+    split; [reflexivity|]. split; [assumption|reflexivity].
+  - match goal with |- (if ?cond then _ else _) = _ -> _ => destruct cond eqn:E end; [|discriminate].
+    intros H. injection H as <-. repeat (apply andb_true_iff in E; destruct E as [E ?]).
+    split; [reflexivity|]. split; [assumption|reflexivity]. Qed.
+
+Lemma pwl_fn_entry sm sg c inputs kip kop out b u :
+  pwl_fn sm sg c inputs kip kop = Some out -> (b < length out)%nat -> (u < p_units c)%nat ->
+  nth u (nth b out []) 0 =
+  pwl_row sm sg c (slice_kip c kip b u) (slice_kop c kop b u) (slice_x c inputs b u).
+Proof. intros H Hb Hu. destruct (pwl_fn_some _ _ _ _ _ _ _ H) as [_ [_ ->]].
+  rewrite map_length, seq_length in Hb.
+  rewrite (nth_map_seq _ _ _ _ Hb). rewrite (nth_map_seq _ _ _ _ Hu). reflexivity. Qed.
+
+(* a tensor is rectangular *)
+Definition rect_kop (kop : ptens) : Prop :=
+  match kop with
+  | P2 t => forall r, In r t -> length r = plast kop
+  | P3 t => forall m, In m t -> length m = length (hd [] t) /\ forall r, In r m -> length r = plast kop
+  end.
+
+Lemma verify_parts c inputs kip kop : verify c inputs kip kop = true ->
+  (0 < output_param_size c kip)%Z /\ Z.of_nat (plast kop) = output_param_size c kip
+  /\ match kop with P2 _ => (p_units c <= 1)%nat | P3 t => length (hd [] t) = p_units c end.
+Proof. unfold verify. intros H. repeat (apply andb_true_iff in H; destruct H as [H ?]).
+  apply Z.ltb_lt in H4. apply Z.eqb_eq in H1. split; [exact H4|]. split; [exact H1|].
+  apply negb_true_iff in H3, H2. destruct kop; cbn [prank pdim1] in *.
+  - change (2 =? 3)%nat with false in H3. cbn [negb] in H3. rewrite andb_true_r in H3. apply Nat.ltb_ge in H3. exact H3.
+  - change (3 =? 3)%nat with true in H2. cbn [andb] in H2. apply negb_false_iff in H2. apply Nat.eqb_eq in H2. exact H2. Qed.
+
+Lemma tile1_noop {A} units (t : list (list A)) : (length (hd [] t) = units \/ (units <= 1)%nat) -> tile1 units t = t.
+Proof. intros H. unfold tile1. destruct (length (hd [] t) =? 1)%nat eqn:E1, (1 <? units)%nat eqn:E2; try reflexivity.
+  apply Nat.eqb_eq in E1. apply Nat.ltb_lt in E2. lia. Qed.
+
+Lemma bsel_in_range {A} (d : A) n i (l : list A) : bcompat n (length l) = true -> (i < n)%nat -> In (bsel d i l) l.
+Proof. unfold bcompat, bsel. intros H Hi. destruct (length l =? 1)%nat eqn:E.
+  - apply Nat.eqb_eq in E. apply nth_In. lia.
+  - cbn [orb] in H. apply Nat.eqb_eq in H. apply nth_In. lia. Qed.
+
+Lemma slice_kop_length sm sg c inputs kip kop out b u : rect_kop kop ->
+  pwl_fn sm sg c inputs kip kop = Some out -> (b < length out)%nat -> (u < p_units c)%nat ->
+  length (slice_kop c kop b u) = plast kop.
+Proof. intros Hr H Hb Hu. destruct (pwl_fn_some _ _ _ _ _ _ _ H) as [V [Bc ->]].
+  rewrite map_length, seq_length in Hb. destruct (verify_parts _ _ _ _ V) as [_ [_ F]].
+  unfold slice_kop. destruct kop as [t|t]; cbn [to3 rect_kop] in *.
+  - rewrite tile1_noop in * by (right; exact F).
+    pose proof (bsel_in_range [] _ b _ Bc Hb) as Hin. apply in_map_iff in Hin. destruct Hin as [r [<- Hr']].
+    unfold bsel at 1. cbn [length Nat.eqb nth]. apply Hr. exact Hr'.
+  - rewrite tile1_noop in * by (left; exact F).
+    pose proof (bsel_in_range [] _ b _ Bc Hb) as Hin. destruct (Hr _ Hin) as [L R].
+    apply R. apply (bsel_in_range [] (p_units c)). unfold bcompat. rewrite L, F, Nat.eqb_refl. apply orb_true_r. exact Hu. Qed.
+
+Lemma num_keypoints_ge2 kip : (2 <= num_keypoints kip)%Z.
+Proof. destruct kip; cbn; lia. Qed.
+
+(* length of the derived outputs of a slice of an accepted call = number of keypoints *)
+Lemma kos_length_accepted sm sg c inputs kip kop slice : softmax_ok sm ->
+  verify c inputs kip kop = true -> length slice = plast kop ->
+  Z.of_nat (length (kos_of sm sg c slice)) = num_keypoints kip.
+Proof. intros Hsm V L. pose proof (verify_cfg_valid _ _ _ _ V) as [_ [_ [Hm [Hn [Hc Hs]]]]].
+  destruct (verify_parts _ _ _ _ V) as [P [S _]]. pose proof (num_keypoints_ge2 kip) as K2.
+  pose proof (split_missing_length sg c slice) as SL. rewrite L in SL.
+  unfold output_param_size in *.
+  assert (Hne : snd (split_missing sg c slice) <> [] \/ is_none c = false).
+  { destruct (is_none c) eqn:E; [left|right; reflexivity]. destruct (Hn eq_refl) as [A B]. rewrite A, B in *.
+    intros E0. rewrite E0 in SL. cbn [length] in SL.
+    destruct (p_min c), (p_mout c), (p_cyc c); cbn [opt_some andb negb b2z] in *; try lia; specialize (Hs eq_refl); discriminate. }
+  rewrite (kos_length sm sg Hsm c slice Hne). rewrite SL.
+  destruct (is_none c) eqn:E.
+  - destruct (Hn eq_refl) as [A B]. rewrite A, B in *.
+    destruct (p_min c), (p_mout c), (p_cyc c); cbn [opt_some andb negb b2z] in *; try lia; specialize (Hs eq_refl); discriminate.
+  - assert (Hi : is_inc c = true) by (destruct Hm; [congruence|assumption]). rewrite (Hc Hi) in *.
+    destruct (p_min c), (p_mout c), (p_cmin c), (p_cmax c); cbn [opt_some andb negb b2z] in *; try lia; specialize (Hs eq_refl); discriminate. Qed.
+
+Lemma pwl_fn_bounds sm sg c inputs kip kop out b u :
+  softmax_ok sm -> sigmoid_ok sg -> rect_kop kop ->
+  pwl_fn sm sg c inputs kip kop = Some out -> (b < length out)%nat -> (u < p_units c)%nat ->
+  (p_mout c = None \/ not_missing c (slice_x c inputs b u)) ->
+  p_omin c <= nth u (nth b out []) 0 <= p_omax c.
+Proof. intros Hsm Hsg Hr H Hb Hu Hm. rewrite (pwl_fn_entry _ _ _ _ _ _ _ _ _ H Hb Hu).
+  destruct (pwl_fn_some _ _ _ _ _ _ _ H) as [V _]. pose proof (verify_cfg_valid _ _ _ _ V) as [Hi [Ho _]].
+  apply pwl_row_bounds; try assumption.
+  pose proof (kos_length_accepted sm sg c inputs kip kop _ Hsm V (slice_kop_length _ _ _ _ _ _ _ _ _ Hr H Hb Hu)) as L.
+  pose proof (num_keypoints_ge2 kip). intros E. rewrite E in L. cbn [length] in L. lia. Qed.
+
+(* keypoint_input_parameters slices *)
+Definition rect_kip (kip : option ptens) : Prop := match kip with None => True | Some t => rect_kop t end.
+
+Lemma pwl_fn_some_kip sm sg c inputs t kop out : pwl_fn sm sg c inputs (Some t) kop = Some out ->
+  bcompat (out_batch c inputs (Some t) kop) (length (tile1 (p_units c) (to3 t))) = true
+  /\ bcompat (p_units c) (length (hd [] (tile1 (p_units c) (to3 t)))) = true.
+Proof. unfold pwl_fn. destruct (verify c inputs (Some t) kop); cbn [negb]; [|discriminate].
+  unfold out_batch. match goal with |- (if ?cond then _ else _) = _ -> _ => destruct cond eqn:E end; [|discriminate].
+  intros _. repeat (apply andb_true_iff in E; destruct E as [E ?]). split; assumption. Qed.
+
+Lemma length_concat_repeat {A} (m : list A) n : length (concat (repeat m n)) = (n * length m)%nat.
+Proof. induction n as [|n IH]; cbn [repeat concat]. reflexivity. rewrite app_length, IH. lia. Qed.
+Lemma tile1_spec {A} units (t3 : list (list A)) m' : In m' (tile1 units t3) ->
+  exists m, In m t3 /\ (forall r, In r m' -> In r m).
+Proof. unfold tile1. destruct ((length (hd [] t3) =? 1)%nat && (1 <? units)%nat).
+  - intros H. apply in_map_iff in H. destruct H as [m [<- Hm]]. exists m. split; [exact Hm|].
+    intros r Hr. apply in_concat in Hr. destruct Hr as [l [Hl Hr]]. apply repeat_spec in Hl. subst l. exact Hr.
+  - intros H. exists m'. split; [exact H|auto]. Qed.
+Lemma tile1_uniform {A} units (t3 : list (list A)) n0 : (forall m, In m t3 -> length m = n0) ->
+  exists n1, forall m', In m' (tile1 units t3) -> length m' = n1.
+Proof. intros H. unfold tile1. destruct ((length (hd [] t3) =? 1)%nat && (1 <? units)%nat).
+  - exists (units * n0)%nat. intros m' Hm. apply in_map_iff in Hm. destruct Hm as [m [<- Hm]].
+    rewrite length_concat_repeat, (H m Hm). reflexivity.
+  - exists n0. exact H. Qed.
+Lemma hd_In {A} (d : A) l : l <> [] -> In (hd d l) l.
+Proof. destruct l; [congruence|left; reflexivity]. Qed.
+
+Lemma slice_kip_length sm sg c inputs t kop out b u : rect_kop t ->
+  pwl_fn sm sg c inputs (Some t) kop = Some out -> (b < length out)%nat -> (u < p_units c)%nat ->
+  exists p, slice_kip c (Some t) b u = Some p /\ length p = plast t.
+Proof. intros Hr H Hb Hu. destruct (pwl_fn_some_kip _ _ _ _ _ _ _ H) as [Bc Uc].
+  destruct (pwl_fn_some _ _ _ _ _ _ _ H) as [_ [_ E]]. rewrite E, map_length, seq_length in Hb. clear E.
+  unfold slice_kip. eexists. split; [reflexivity|].
+  set (k3 := tile1 (p_units c) (to3 t)) in *.
+  pose proof (bsel_in_range [] _ b k3 Bc Hb) as Hin.
+  assert (Hu3 : exists n0, forall m, In m (to3 t) -> length m = n0).
+  { destruct t as [t|t]; cbn [to3 rect_kop] in *.
+    - exists 1%nat. intros m Hm. apply in_map_iff in Hm. destruct Hm as [r [<- _]]. reflexivity.
+    - exists (length (hd [] t)). intros m Hm. apply (Hr m Hm). }
+  destruct Hu3 as [n0 Hn0]. destruct (tile1_uniform (p_units c) (to3 t) n0 Hn0) as [n1 Hn1]. fold k3 in Hn1.
+  assert (Hne : k3 <> []) by (intros E; rewrite E in Hin; destruct Hin).
+  rewrite (Hn1 _ (hd_In [] k3 Hne)) in Uc. rewrite <- (Hn1 _ Hin) in Uc.
+  pose proof (bsel_in_range [] _ u _ Uc Hu) as Hp.
+  destruct (tile1_spec _ _ _ Hin) as [m [Hm Hrows]]. apply Hrows in Hp.
+  destruct t as [t|t]; cbn [to3 rect_kop] in *.
+  - apply in_map_iff in Hm. destruct Hm as [r [<- Hr']]. destruct Hp as [<-|[]]. apply Hr; exact Hr'.
+  - apply (Hr m Hm). exact Hp. Qed.
+
+Lemma pwl_fn_row_sized sm sg c inputs kip kop out b u :
+  softmax_ok sm -> rect_kip kip -> rect_kop kop ->
+  pwl_fn sm sg c inputs kip kop = Some out -> (b < length out)%nat -> (u < p_units c)%nat ->
+  row_sized sm sg c (slice_kip c kip b u) (slice_kop c kop b u).
+Proof. intros Hsm Hrk Hro H Hb Hu. unfold row_sized.
+  destruct (pwl_fn_some _ _ _ _ _ _ _ H) as [V _].
+  pose proof (kos_length_accepted sm sg c inputs kip kop _ Hsm V (slice_kop_length _ _ _ _ _ _ _ _ _ Hro H Hb Hu)) as L.
+  rewrite (key_deltas_length sm Hsm c). destruct kip as [t|]; cbn [rect_kip] in Hrk.
+  - destruct (slice_kip_length _ _ _ _ _ _ _ _ _ Hrk H Hb Hu) as [p [-> Lp]]. cbn [kip_list length num_keypoints] in *. lia.
+  - cbn [slice_kip kip_list length num_keypoints] in *. lia. Qed.
+
+(* ---- example oracles ------------------------------------------------------------ *)
+(* uniform distribution: same length, strictly positive, sums to 1 *)
+Definition ex_softmax (l : list Q) : list Q := map (fun _ => / inject_Z (Z.of_nat (length l))) l.
+Lemma qsum_const (cst : Q) (l : list Q) : qsum (map (fun _ => cst) l) == inject_Z (Z.of_nat (length l)) * cst.
+Proof. induction l as [|a l IH]; cbn [map qsum length]. change (inject_Z (Z.of_nat 0)) with 0. lra.
+  rewrite IH, Nat2Z.inj_succ. unfold Z.succ. rewrite inject_Z_plus. change (inject_Z 1) with 1. lra. Qed.
+Lemma ex_softmax_ok : softmax_ok ex_softmax /\ softmax_pos ex_softmax.
+Proof. assert (P : forall l v, In v (ex_softmax l) -> 0 < v).
+  { intros l v Hv. unfold ex_softmax in Hv. apply in_map_iff in Hv. destruct Hv as [a [<- Ha]].
+    apply Qinv_lt_0_compat. change 0 with (inject_Z 0). rewrite <- Zlt_Qlt. destruct l; [destruct Ha|cbn [length]; lia]. }
+  split; [|exact P]. intros l. split; [apply map_length|]. split.
+  - intros v Hv. apply Qlt_le_weak, (P l v Hv).
+  - intros Hne. unfold ex_softmax. rewrite qsum_const. apply Qmult_inv_r.
+    intros E. assert (0 < inject_Z (Z.of_nat (length l))).
+    { change 0 with (inject_Z 0). rewrite <- Zlt_Qlt. destruct l; [congruence|cbn [length]; lia]. } lra. Qed.
+
+(* ---- statements in the form used by Props/C15.v ---------------------------------- *)
+Lemma T_pwl_bounds : forall sm sg c kip kop x,
+  softmax_ok sm -> sigmoid_ok sg -> p_imin c <= p_imax c -> p_omin c <= p_omax c ->
+  kos_of sm sg c kop <> [] -> (p_mout c = None \/ not_missing c x) ->
+  p_omin c <= pwl_row sm sg c kip kop x <= p_omax c.
+Proof. intros. apply pwl_row_bounds; assumption. Qed.
+Lemma T_pwl_monotone : forall sm sg c kip kop x y,
+  softmax_ok sm -> sigmoid_ok sg -> p_imin c <= p_imax c -> p_omin c <= p_omax c ->
+  is_none c = false -> not_missing c x -> not_missing c y -> x <= y ->
+  pwl_row sm sg c kip kop x <= pwl_row sm sg c kip kop y.
+Proof. intros. apply pwl_row_monotone; assumption. Qed.
+Lemma T_pwl_clamps_params : forall sm sg c kop,
+  softmax_ok sm -> sigmoid_ok sg -> p_omin c <= p_omax c -> is_none c = false -> kos_of sm sg c kop <> [] ->
+  (p_cmin c = true -> hd 0 (kos_of sm sg c kop) == p_omin c) /\
+  (p_cmax c = true -> qsum (kos_of sm sg c kop) == p_omax c).
+Proof. intros sm sg c kop Hsm Hsg Ho Hi Hne. split; intros Hc.
+  apply kos_clamp_min; assumption. apply kos_clamp_max; assumption. Qed.
+Lemma T_pwl_clamps : forall sm sg c kip kop x,
+  softmax_ok sm -> sigmoid_ok sg -> p_imin c <= p_imax c -> p_omin c <= p_omax c ->
+  is_none c = false -> row_sized sm sg c kip kop -> not_missing c x ->
+  (p_cmin c = true -> x <= p_imin c -> pwl_row sm sg c kip kop x == p_omin c) /\
+  (p_cmax c = true -> right_of sm c x -> pwl_row sm sg c kip kop x == p_omax c).
+Proof. intros sm sg c kip kop x Hsm Hsg Hi Ho Hn Hs Hm. split; intros Hc Hx.
+  apply pwl_row_clamp_min; assumption. apply pwl_row_clamp_max; assumption. Qed.
+Lemma T_pwl_cyclic : forall sm sg c kip kop x y,
+  softmax_ok sm -> sigmoid_ok sg -> p_imin c <= p_imax c -> p_omin c <= p_omax c ->
+  is_none c = true -> p_cyc c = true ->
+  qsum (kos_of sm sg c kop) == hd 0 (kos_of sm sg c kop) /\
+  (row_sized sm sg c kip kop -> not_missing c x -> not_missing c y -> x <= p_imin c -> right_of sm c y ->
+   pwl_row sm sg c kip kop x == pwl_row sm sg c kip kop y).
+Proof. intros sm sg c kip kop x y Hsm Hsg Hi Ho Hn Hc. split.
+  apply kos_cyclic; assumption. intros. apply pwl_row_cyclic; assumption. Qed.
+Lemma T_param_forms_refuted : exists c inputs kip kop,
+  cfg_valid c /\ p_units c = 2%nat /\ kop = P3 [[[0; 0]]] /\ kip = None
+  /\ Z.of_nat (plast kop) = doc_output_size c (num_keypoints kip)
+  /\ verify c inputs kip kop = false.
+Proof. exists (mkP 0 1 0 1 2 MonoNone false false false None None), [[0]], None, (P3 [[[0; 0]]]).
+  split. { unfold cfg_valid; cbn. repeat split; try lra; auto; discriminate. }
+  repeat split; reflexivity. Qed.
+Lemma T_ex_call :
+  let c := mkP 0 1 0 1 1 MonoInc true true false None None in
+  cfg_valid c /\ verify c [[1 # 2]] (Some (P2 [[0]])) (P2 [[0]]) = true /\
+  row_sized ex_softmax (fun _ => 1 # 2) c (Some [0]) [0] /\
+  pwl_fn ex_softmax (fun _ => 1 # 2) c [[1 # 2]; [1]; [-1 # 1]] (Some (P2 [[0]])) (P2 [[0]])
+    = Some [[4 # 8]; [8 # 8]; [0 # 4]].
+Proof. cbv zeta. split; [|split; [|split]]; try (vm_compute; reflexivity).
+  unfold cfg_valid; cbn; repeat split; try lra; auto; discriminate. Qed.
